@@ -1,6 +1,6 @@
 SPECIFICATION Spec
 CONSTANTS
-  Families = {"fo", "st", "va", "ch", "ne", "li1", "li2", "li3", "p3", "pv", "dy", "cd"}
+  Families = {"fo", "st", "va", "ch", "ne", "li1", "li2", "li3", "p3", "pv", "op", "br", "dy", "cd"}
   DynLen = 4
   CdLen = 2
   SizeFo = 2
